@@ -30,14 +30,14 @@ Definition expected_notifs (cs : list cent) (view prior : list node) : list sx :
   map snd (fold_right insert_by_path [] (ch ++ del)).
 
 Record srec := { sr_send : N; sr_recv : N; sr_eq : bool; sr_digest : bytes; sr_reqs : sx; sr_notifs : sx;
-                 sr_ov : list N; sr_scrib : sx; sr_leaks : N }.
+                 sr_ov : list N; sr_scrib : sx; sr_leaks : N; sr_prog : list N }.
 
 Definition dec_srec (s : sx) : option srec :=
   match s with
-  | SL [SN a; SN b; eq; SB d; SL rq; SL nt; SN o0; SN o1; SN o2; SN o3; sc; SN lk] =>
+  | SL [SN a; SN b; eq; SB d; SL rq; SL nt; SN o0; SN o1; SN o2; SN o3; sc; SN lk; SN pv; SN po] =>
       e <- sx_bool eq ;;
       Some {| sr_send := a; sr_recv := b; sr_eq := e; sr_digest := d; sr_reqs := SL rq; sr_notifs := SL nt;
-              sr_ov := [o0; o1; o2; o3]; sr_scrib := sc; sr_leaks := lk |}
+              sr_ov := [o0; o1; o2; o3]; sr_scrib := sc; sr_leaks := lk; sr_prog := [pv; po] |}
   | _ => None
   end.
 
@@ -59,9 +59,9 @@ Definition run_0801 (input impl : sx) : sx :=
       let reqs := SL (map of_nat (expected_reqs cs)) in
       let notifs := SL (expected_notifs cs view prior) in
       let model := SL (map (fun r => SL [SN 0; SN 0; SN 1; SB (sr_digest r); reqs; notifs;
-                                         SN 0; SN 0; SN 0; SN 0; sr_scrib r; SN 0]%N) recs) in
+                                         SN 0; SN 0; SN 0; SN 0; sr_scrib r; SN 0; SN 0; SN 0]%N) recs) in
       let each := forallb (fun r => N.eqb (sr_send r) 0 && N.eqb (sr_recv r) 0 && sr_eq r
-                                    && forallb (N.eqb 0) (sr_ov r) && N.eqb (sr_leaks r) 0
+                                    && forallb (N.eqb 0) (sr_ov r) && N.eqb (sr_leaks r) 0 && forallb (N.eqb 0) (sr_prog r)
                                     && match sr_notifs r with SL l => forallb notif_ok l | _ => false end) recs in
       let same := match recs with
                   | [] => false
